@@ -447,6 +447,9 @@ def build_molecule(case, blocks, mods, ff):
                      'atype': 't' + name, 'charge': 0.0, 'charge_group': i + 1}
             if explicit_false:
                 attrs['PTM_atom'] = False
+            if case['flagging'] != 'repair' and (p + case['input_names']) % 3 == 0:
+                # what a -modify / -nter request leaves on every atom of the residue (RepairGraph is not run in this mode)
+                attrs['modification'] = ['asked-for']
             mol.add_node(nid, **attrs)
             node_of[(p, i)] = nid
             nid += 1
@@ -471,6 +474,8 @@ def build_molecule(case, blocks, mods, ff):
             name = '%s%d' % (elem, 90 + junk[0])
         attrs = {'atomname': name, 'element': elem, 'resname': blocks[restypes[p]]['name'],
                  'resid': resids[p], 'chain': 'A', 'atomid': nid + 1}
+        if case['flagging'] != 'repair' and (p + case['input_names']) % 3 == 0:
+            attrs['modification'] = ['asked-for']
         mol.add_node(nid, **attrs)
         flagged.append(nid)
         nid += 1
